@@ -592,7 +592,11 @@ theorem attach_inv {s1 : Sess} (h1 : Inv s1) {r : Req} (hp : Popped s1 .subscrib
 theorem onEstablished_inv {s : Sess} (h : Inv s) (beh : List HAct) (m : InMsg) :
     InvRel s (onEstablished s beh m).2 (onEstablished s beh m).1 := by
   cases m with
-  | goodbye => exact invLiftX.goodbye h _
+  | goodbye =>
+    simp only [onEstablished]
+    split
+    · exact raise_inv h (by simp) (by simp)
+    · exact invLiftX.goodbye h _
   | event sub pub p =>
     simp only [onEstablished]
     split
